@@ -79,4 +79,20 @@ PROPS = {
             "'time proportional to input size' is not expressible; termination of every loop is what is proved",
         ],
     },
+    "C15": {
+        "units": ["codec", "ctors"],
+        "design_ref": "DESIGN.md section 7, C15",
+        "technique": "contract-based deductive verification (Verus) of the real from_bytes / to_bytes (closures, chunks_exact, itertools tuples modelled by verified adapters); iff-acceptance for byte strings of every length",
+        "claim": "from_bytes(b) is proved to return Ok exactly when b[0] is an extension degree d in 1..=6, the remainder is 5+d+2k 32-byte elements with k >= 1 and no trailing "
+                 "bytes, and the d leading and the two response scalars are canonical; on success every field is the corresponding 32-byte slot (d1, A, A1, B, r1, s1, "
+                 "every L_j/R_j), for byte strings of every length. to_bytes(p) is proved to equal the layout function enc(p) (degree byte, d1, A, A1, B, r1, s1, interleaved L/R). "
+                 "extension_degree_from_proof_bytes and ExtensionDegree::try_from(u8) are exact. The serde wrappers (two forwarding calls behind serde's generic machinery) are not "
+                 "under contract.",
+        "assumptions": [
+            "Scalar::from_canonical_bytes returns Some(s) iff the 32 bytes are canonical (uninterpreted predicate is_canonical) and then s.as_bytes() are those bytes (dalek contract)",
+            "slice::chunks_exact and itertools::tuples are modelled by adapters with explicit cursor state (prelude/90_codec.rs); the pair adapter's next() is verified, its buffer semantics (odd leftover kept) is itertools' documented behaviour",
+            "serde Serialize/Deserialize impls forward to to_bytes/from_bytes and are not extracted",
+            "the pure round-trip lemmas (enc(decode(b)) == b, decode(enc(p)) == p for well-formed p) are listed in coverage.obligation_ids only once written; the zero-round finding of DESIGN section 8.2 belongs to them",
+        ],
+    },
 }
